@@ -12,6 +12,10 @@ def run(chk, replay=None):
     rng = random.Random(chk.seed)
     if replay:
         sc = json.load(open(replay))["replay"]["script"]
+        if any(o.get("op", "").startswith("mt_") for o in sc.get("ops", [])):
+            import netlib
+            netlib.report(chk, netlib.run_net(chk, [sc], "c10-races", procs=1, monitor="TraceRace"), [sc], ("C10/",), "races")
+            return
         sendlib.run_and_report(chk, [sc], "replay", ("C10/",))
         return
     for cfg, must in (("MC_RoundRobin_ok", True), ("MC_RoundRobin_push_front", False), ("MC_RoundRobin_push_twice", False), ("MC_RoundRobin_no_push_back", False),
@@ -37,6 +41,11 @@ def run(chk, replay=None):
     shp = sendlib.shape_scripts(800000)
     for s in shp: chk.case(("shape", s["sock"], s["tag"]))
     sendlib.run_and_report(chk, shp, "c10-shapes", ("C10/",))
+    import netlib
+    races = netlib.race_scripts(rng, thorough, what=("rejoin",))
+    for s in races: chk.case(("race", s["sock"], s["tag"], s["scen"]))
+    rv = netlib.run_net(chk, races, "c10-races", procs=3, monitor="TraceRace")
+    netlib.report(chk, rv, races, ("C10/",), "races")
     rnd = []
     for t in ("PUSH", "DEALER", "REQ"):
         for i in range(800 if thorough else 120):
